@@ -30,6 +30,17 @@ func (f *fakeImporter) Import(path string) (*types.Package, error) {
 	}
 	name := path[strings.LastIndex(path, "/")+1:]
 	p := types.NewPackage(path, name)
+	if path == "time" {
+		// typed duration constants (`500 * time.Millisecond`) must evaluate: provide time.Duration and its units
+		dur := types.NewNamed(types.NewTypeName(token.NoPos, p, "Duration", nil), types.Typ[types.Int64], nil)
+		p.Scope().Insert(dur.Obj())
+		for _, u := range []struct {
+			n string
+			v int64
+		}{{"Nanosecond", 1}, {"Microsecond", 1e3}, {"Millisecond", 1e6}, {"Second", 1e9}, {"Minute", 60e9}, {"Hour", 3600e9}} {
+			p.Scope().Insert(types.NewConst(token.NoPos, p, u.n, dur, constant.MakeInt64(u.v)))
+		}
+	}
 	p.MarkComplete()
 	f.pkgs[path] = p
 	return p, nil
